@@ -230,6 +230,21 @@ Print Assumptions C14_merge_keeps_languages.
 Theorem C14_merge_idempotent : forall cs, nodes_nonempty cs -> merge_concurrent (merge_concurrent cs) = merge_concurrent cs.
 Proof. exact merge_concurrent_idempotent. Qed.
 Print Assumptions C14_merge_idempotent.
+(* the writers that merge first (SinglePositioningDFXPWriter, LegacyDFXPWriter = merge_concurrent_captions, then the
+   writer above): what they write is judged against the GROUPED set, and reading it back returns the grouped set *)
+Theorem C14_single_write_meets_oracle : forall force cs, nodes_nonempty cs -> NoDup (map fst cs) ->
+  ok_dfxp_write force (flat_set (spec_merge_set cs)) (doc_sset (single_write force cs)) = true.
+Proof. exact single_write_meets_oracle. Qed.
+Print Assumptions C14_single_write_meets_oracle.
+Theorem C14_legacy_merge_write_meets_oracle : forall force cs d, nodes_nonempty cs -> NoDup (map fst cs) ->
+  mem [] (map fst cs) = false -> legacy_merge_write force cs = Ok d ->
+  ok_dfxp_write force (flat_set (spec_merge_set cs)) (doc_sset d) = true.
+Proof. exact legacy_merge_write_meets_oracle. Qed.
+Print Assumptions C14_legacy_merge_write_meets_oracle.
+Theorem C14_single_write_roundtrip : forall default cs, nodes_nonempty cs -> NoDup (map fst cs) -> mem [] (map fst cs) = false ->
+  dfxp_read default (single_write [] cs) = flat_set (spec_merge_set cs).
+Proof. exact single_write_roundtrip. Qed.
+Print Assumptions C14_single_write_roundtrip.
 (* about the grouping itself, ALL cue lists: neighbours in the output have different spans; the spans are those of
    the input with neighbouring repetitions dropped; the texts are conserved in order; a list without equal
    neighbours is left alone *)
@@ -356,4 +371,13 @@ Proof.
   split; [|vm_compute; reflexivity].
   intros l caps x [H|[H|[]]]; inversion H; subst; [|intros []].
   intros Hx. repeat (destruct Hx as [<-|Hx]; [discriminate|]). destruct Hx.
+Qed.
+Example C14_example_single_write :
+  NoDup (map fst ex_mset) /\ mem [] (map fst ex_mset) = false
+  /\ dfxp_read (lit "und") (single_write [] ex_mset)
+     = [(lit "en", [(1, lit "a b c"); (1, lit "d"); (1, lit "e")]); (lit "fr", [])]
+  /\ (exists d, legacy_merge_write (lit "xx") ex_mset = Ok d /\ doc_sset d = [(lit "fr", [])]).
+Proof.
+  split; [|split; [reflexivity|split; [vm_compute; reflexivity|eexists; split; vm_compute; reflexivity]]].
+  repeat constructor; cbn; intros H; repeat (destruct H as [H|H]; [discriminate|]); exact H.
 Qed.
